@@ -415,7 +415,7 @@ def stream_mc(quick):
     """Exhaustive check of Stream.tla (producer / faults / consumer) plus one run per specification mutant: each mutant
     must violate an invariant, which shows the invariants are not vacuous on the bounded instance."""
     plans = [("R,Q b2 f2", ("R", "Q"), 2, 2), ("R b3 f2", ("R",), 3, 2), ("R b2 f3", ("R",), 2, 3)] if quick else [("R,Q b3 f2", ("R", "Q"), 3, 2), ("R b4 f2", ("R",), 4, 2),
-                                                                                       ("R,Q b2 f3", ("R", "Q"), 2, 3)]
+                                                                                       ("R,Q b2 f3", ("R", "Q"), 2, 3), ("R b3 f3", ("R",), 3, 3)]
     res = {"configs": [], "distinct": 0, "generated": 0, "wall": 0.0, "problem": None, "mutants": {}}
     def one(p):
         name, rel, nb, nf = p
